@@ -37,6 +37,9 @@ type SchedCase struct {
 	// Prior, if set, is executed (ungated) on the same engine / pool before the call under
 	// test: what a call does must not depend on how the engine was used before.
 	Prior *gx.Call `json:"prior,omitempty"`
+	// PriorFails: rules that fail in the earlier call only (pf(@name) panics for them while
+	// the earlier call runs): a failure of an earlier call must leave nothing behind.
+	PriorFails []string `json:"prior_fails,omitempty"`
 }
 
 // genPrior draws, in a quarter of the cases, an earlier call of any execute method.
@@ -58,6 +61,11 @@ func genPrior(t *rapid.T, c *SchedCase) {
 	call := fullCall(name, names, uni(t, "prior_salt", 0, 5))
 	call.B = rapid.Bool().Draw(t, "prior_b")
 	c.Prior = &call
+	for i, r := range c.Rules {
+		if pct(t, fmt.Sprintf("prior_fail%d", i), 30) {
+			c.PriorFails = append(c.PriorFails, r.Name)
+		}
+	}
 }
 
 // ruleText renders the standard body.
@@ -70,7 +78,7 @@ func ruleText(r models.Rule) string {
 	if !r.NoSal {
 		fmt.Fprintf(&b, " salience %d", r.Sal)
 	}
-	b.WriteString("\nbegin\n  S(@name)\n  gate(@name)\n")
+	b.WriteString("\nbegin\n  pf(@name)\n  S(@name)\n  gate(@name)\n")
 	switch {
 	case strings.HasPrefix(r.TagCond, "="):
 		b.WriteString("  stag.StopTag = " + r.TagCond[1:] + "\n")
@@ -244,6 +252,8 @@ type schedEnv struct {
 	gates  *obs.Gates
 	tag    *engine.Stag
 	retLen int // length of the log when the last call returned
+	// priorFails is non-empty only while the earlier call of a case runs
+	priorFails map[string]bool
 }
 
 // gatesForProbe returns the Gates object the injected gate function is bound to, reset so
@@ -267,6 +277,11 @@ func (e *schedEnv) apis() map[string]interface{} {
 		"STALE": func(n string) { e.log.Add("STALE", n, 0) },
 		"FX":    func(n string) { e.log.Add("F", n, 0) },
 		"cgate": func(n string) { e.gates.Enter(n + "#c"); e.log.Add("CX", n, 0) },
+		"pf": func(n string) {
+			if e.priorFails[n] {
+				panic("injected failure in the earlier call")
+			}
+		},
 		"O":     &FObj{V: 1, In: &FObj{V: 2}},
 		"sl":    []int64{1, 2},
 		"tt":    true,
@@ -628,10 +643,18 @@ func checkSched(x *Ctx, c *SchedCase) (*models.Input, bool) {
 	}
 	if c.Prior != nil {
 		x.Class("engine-used-before-by:" + c.Prior.Method)
+		if len(c.PriorFails) > 0 {
+			x.Class("earlier-call-had-failing-rules")
+			env.priorFails = map[string]bool{}
+			for _, n := range c.PriorFails {
+				env.priorFails[n] = true
+			}
+		}
 		if pres := runWithSchedule(x, tg, *c.Prior, nil, q); pres.Panic != "" {
 			x.Violation("prior-call-panic", "the earlier call %s panicked: %s", *c.Prior, truncate(pres.Panic, 300))
 			return nil, false
 		}
+		env.priorFails = nil
 		env.log.Reset()
 		env.tag.StopTag = false
 		env.gates.Reopen()
